@@ -14,7 +14,9 @@ import (
 	"bufio"
 	"bytes"
 	"encoding/binary"
+	"encoding/hex"
 	"fmt"
+	"io"
 	"os"
 	"strconv"
 	"strings"
@@ -291,6 +293,12 @@ func vCrop(stbl *mp4.StblBox, k uint32) string {
 
 func vRunCase(f []string) string {
 	op, arg := f[1], f[2]
+	switch op {
+	case "hdr":
+		return vHdr(arg)
+	case "mdat":
+		return vMdat(arg)
+	}
 	tabs := f[3:]
 	if len(tabs)%7 != 0 || len(tabs) == 0 {
 		return "badcase"
@@ -367,6 +375,10 @@ func vRunCase(f []string) string {
 			res = fmt.Sprintf("ok/%d/%s/%s", first, strings.Join(parts, "|"), strings.Join(rs, ","))
 		})
 		return "fill=" + res
+	case "shift": // arg = sizeWithoutMdat:firstOffset:inputMdatHeaderSize
+		return vShift(stbls, num(0), num(1), num(2))
+	case "virt":
+		return vVirt(stbls, a)
 	}
 	return "badop"
 }
@@ -392,9 +404,423 @@ func TestVerifDriver(t *testing.T) {
 	sc.Buffer(make([]byte, 1<<20), 1<<26)
 	for sc.Scan() {
 		f := strings.Split(sc.Text(), "\t")
-		if len(f) < 10 {
+		if len(f) < 3 {
 			continue
 		}
 		fmt.Fprintf(w, "%s\t%s\n", f[0], vRunCase(f))
 	}
+}
+
+// ---------------------------------------------------------------------------------------------------------
+// updateChunkOffsets, writeUptoMdat (duration arithmetic), writeMdat, and cropMP4 on a virtual input file
+
+// vFakeBox is a top-level box of a chosen size (it stands for ftyp+moov+free...; it is never encoded).
+type vFakeBox struct{ size uint64 }
+
+func (b *vFakeBox) Type() string                           { return "free" }
+func (b *vFakeBox) Size() uint64                           { return b.size }
+func (b *vFakeBox) Encode(w io.Writer) error               { return nil }
+func (b *vFakeBox) EncodeSW(sw bits.SliceWriter) error     { return nil }
+func (b *vFakeBox) Info(w io.Writer, x, y, z string) error { return nil }
+
+func vJoinU64(xs []uint64) string {
+	ss := make([]string, len(xs))
+	for i, x := range xs {
+		ss[i] = strconv.FormatUint(x, 10)
+	}
+	return strings.Join(ss, ",")
+}
+
+func vOffsets(s *mp4.StblBox) string {
+	if s.Stco != nil {
+		o := make([]uint64, len(s.Stco.ChunkOffset))
+		for i, x := range s.Stco.ChunkOffset {
+			o[i] = uint64(x)
+		}
+		return vJoinU64(o)
+	}
+	if s.Co64 != nil {
+		return vJoinU64(s.Co64.ChunkOffset)
+	}
+	return "none"
+}
+
+// vShift: updateChunkOffsets on a File whose non-mdat boxes have total size swm and whose (input) mdat box has
+// an 8- or 16-byte header; the chunk offset boxes hold the offsets written by updateStco/updateCo64.
+func vShift(stbls []*mp4.StblBox, swm, first, inHdr uint64) string {
+	var traks []*mp4.TrakBox
+	for i, s := range stbls {
+		traks = append(traks, vTrak(uint32(i+1), 1000, "vide", s))
+	}
+	mdat := &mp4.MdatBox{LargeSize: inHdr == 16}
+	f := &mp4.File{Moov: &mp4.MoovBox{Traks: traks}, Mdat: mdat, Children: []mp4.Box{&vFakeBox{swm}, mdat}}
+	res := "panic"
+	vTry(func() {
+		if err := updateChunkOffsets(f, first); err != nil {
+			res = "err"
+			return
+		}
+		var parts []string
+		for _, s := range stbls {
+			parts = append(parts, vOffsets(s))
+		}
+		res = "ok/" + strings.Join(parts, "|")
+	})
+	return "shift=" + res
+}
+
+// vHdr: the duration arithmetic of writeUptoMdat.
+// arg = endTime:endTimescale:mvhdTimescale:mvhdDuration(:tkhdDuration;mdhdDuration;elst)+ ; elst = - | e,e|e,... (one group per elst box)
+func vHdr(arg string) string {
+	a := strings.Split(arg, ":")
+	if len(a) < 5 {
+		return "badcase"
+	}
+	n := func(s string) uint64 { v, _ := strconv.ParseUint(s, 10, 64); return v }
+	moov := &mp4.MoovBox{Mvhd: &mp4.MvhdBox{Timescale: uint32(n(a[2])), Duration: n(a[3])}}
+	for i, t := range a[4:] {
+		p := strings.Split(t, ";")
+		trak := &mp4.TrakBox{Tkhd: &mp4.TkhdBox{TrackID: uint32(i + 1), Duration: n(p[0])},
+			Mdia: &mp4.MdiaBox{Mdhd: &mp4.MdhdBox{Duration: n(p[1])}}}
+		if p[2] != "-" {
+			trak.Edts = &mp4.EdtsBox{}
+			for _, g := range strings.Split(p[2], "|") {
+				el := &mp4.ElstBox{}
+				for _, e := range vU64s(g) {
+					el.Entries = append(el.Entries, mp4.ElstEntry{SegmentDuration: e, MediaRateInteger: 1})
+				}
+				trak.Edts.Elst = append(trak.Edts.Elst, el)
+			}
+		}
+		moov.Traks = append(moov.Traks, trak)
+	}
+	f := &mp4.File{Moov: moov}
+	res := "panic"
+	vTry(func() {
+		if err := writeUptoMdat(f, n(a[0]), n(a[1]), io.Discard); err != nil {
+			res = "err"
+			return
+		}
+		var parts []string
+		for _, trak := range moov.Traks {
+			el := "-"
+			if trak.Edts != nil {
+				var gs []string
+				for _, e := range trak.Edts.Elst {
+					var ds []uint64
+					for _, en := range e.Entries {
+						ds = append(ds, en.SegmentDuration)
+					}
+					gs = append(gs, vJoinU64(ds))
+				}
+				el = strings.Join(gs, "|")
+			}
+			parts = append(parts, fmt.Sprintf("%d;%d;%s", trak.Tkhd.Duration, trak.Mdia.Mdhd.Duration, el))
+		}
+		res = fmt.Sprintf("ok/%d/%s", moov.Mvhd.Duration, strings.Join(parts, ":"))
+	})
+	return "hdr=" + res
+}
+
+// vFileByte is the content of the virtual input files at absolute position p.
+func vFileByte(p uint64) byte { return byte((p*7 + p/3 + p/251) % 256) }
+
+// vMdat: writeMdat on byte ranges of a file of fileLen bytes (byte p = vFileByte(p)) holding an mdat box at mdatStart
+// with an 8/16-byte header and payloadLen bytes of payload, decoded lazily (as mp4ff-crop does) or into memory.
+// arg = fileLen:mdatStart:inHdr:payloadLen:lazy:ranges ; ranges = - | s-e,s-e,...
+func vMdat(arg string) string {
+	a := strings.Split(arg, ":")
+	if len(a) != 6 {
+		return "badcase"
+	}
+	n := func(i int) uint64 { v, _ := strconv.ParseUint(a[i], 10, 64); return v }
+	file := make([]byte, n(0))
+	for i := range file {
+		file[i] = vFileByte(uint64(i))
+	}
+	m := &mp4.MdatBox{StartPos: n(1), LargeSize: n(2) == 16}
+	if n(4) == 1 {
+		m.SetLazyDataSize(n(3))
+	} else {
+		ps := n(1) + n(2)
+		m.Data = file[ps : ps+n(3)]
+	}
+	brs := createByteRanges()
+	if a[5] != "-" {
+		for _, r := range strings.Split(a[5], ",") {
+			se := strings.Split(r, "-")
+			s, _ := strconv.ParseUint(se[0], 10, 64)
+			e, _ := strconv.ParseUint(se[1], 10, 64)
+			brs.ranges = append(brs.ranges, byteRange{s, e})
+		}
+	}
+	res := "panic"
+	vTry(func() {
+		var buf bytes.Buffer
+		if err := writeMdat(brs, m, &buf, bytes.NewReader(file)); err != nil {
+			res = "err"
+			return
+		}
+		res = "ok/" + hex.EncodeToString(buf.Bytes())
+	})
+	return "mdat=" + res
+}
+
+// ---- a virtual progressive file: head bytes | mdat header | payload (computed, never stored) | tail bytes
+
+type vVirtFile struct {
+	head, tail []byte
+	payLen     int64
+	zero       bool // payload bytes are 0 (fast, for multi-gigabyte payloads) instead of vFileByte(position)
+	pos        int64
+}
+
+func (v *vVirtFile) size() int64 { return int64(len(v.head)) + v.payLen + int64(len(v.tail)) }
+
+func (v *vVirtFile) Read(p []byte) (int, error) {
+	if v.pos >= v.size() {
+		return 0, io.EOF
+	}
+	n := 0
+	for n < len(p) && v.pos < v.size() {
+		h, pl := int64(len(v.head)), v.payLen
+		switch {
+		case v.pos < h:
+			c := copy(p[n:], v.head[v.pos:])
+			n += c
+			v.pos += int64(c)
+		case v.pos < h+pl:
+			c := int64(len(p) - n)
+			if c > h+pl-v.pos {
+				c = h + pl - v.pos
+			}
+			if v.zero {
+				for i := int64(0); i < c; i++ {
+					p[n+int(i)] = 0
+				}
+			} else {
+				for i := int64(0); i < c; i++ {
+					p[n+int(i)] = vFileByte(uint64(v.pos + i))
+				}
+			}
+			n += int(c)
+			v.pos += c
+		default:
+			c := copy(p[n:], v.tail[v.pos-h-pl:])
+			n += c
+			v.pos += int64(c)
+		}
+	}
+	return n, nil
+}
+
+func (v *vVirtFile) Seek(off int64, whence int) (int64, error) {
+	switch whence {
+	case io.SeekStart:
+	case io.SeekCurrent:
+		off += v.pos
+	case io.SeekEnd:
+		off += v.size()
+	}
+	if off < 0 {
+		return 0, fmt.Errorf("negative position")
+	}
+	v.pos = off
+	return off, nil
+}
+
+// vHeadWriter keeps the first bytes written (everything before the new mdat payload fits) and counts the rest.
+type vHeadWriter struct {
+	head  []byte
+	limit int
+	n     int64
+}
+
+func (w *vHeadWriter) Write(p []byte) (int, error) {
+	if len(w.head) < w.limit {
+		k := w.limit - len(w.head)
+		if k > len(p) {
+			k = len(p)
+		}
+		w.head = append(w.head, p[:k]...)
+	}
+	w.n += int64(len(p))
+	return len(p), nil
+}
+
+func vSttsTotal(s *mp4.SttsBox) uint64 {
+	var t uint64
+	for i := range s.SampleCount {
+		t += uint64(s.SampleCount[i]) * uint64(s.SampleTimeDelta[i])
+	}
+	return t
+}
+
+// vVirt: cropMP4 (everything of the tool after opening the files) on a virtual input file built from the tables.
+// a = ms : mdatFirst(0|1) : inHdr(8|16) : between(0 none|1 free|2 skip|3 unknown box) : padLen : mvhdTimescale :
+//
+//	payloadLen : zero(0|1) : timescale,timescale,...   (chunk offsets in the tables are relative to the mdat payload)
+//
+// First track is video, the others audio. Result: ok/<start of new mdat>/<its size field>/<bytes written>/
+//
+//	<samples per track>/<chunk offsets per track>/<mvhd duration>/<tkhd durations>
+func vVirt(stbls []*mp4.StblBox, a []string) string {
+	if len(a) != 9 {
+		return "badcase"
+	}
+	n := func(i int) uint64 { v, _ := strconv.ParseUint(a[i], 10, 64); return v }
+	tss := vU32s(a[8])
+	if len(tss) != len(stbls) {
+		return "badcase"
+	}
+	mvts := uint32(n(5))
+	ftyp := mp4.NewFtyp("isom", 0x200, []string{"isom", "iso2", "mp41"})
+	moov := mp4.NewMoovBox()
+	mvhd := mp4.CreateMvhd()
+	mvhd.Timescale = mvts
+	mvhd.NextTrackID = uint32(len(stbls) + 1)
+	moov.AddChild(mvhd)
+	for i, stbl := range stbls {
+		trakDur := vSttsTotal(stbl.Stts) * uint64(mvts) / uint64(tss[i])
+		if trakDur > mvhd.Duration {
+			mvhd.Duration = trakDur
+		}
+		trak := mp4.NewTrakBox()
+		tkhd := mp4.CreateTkhd()
+		tkhd.TrackID = uint32(i + 1)
+		tkhd.Duration = trakDur
+		trak.AddChild(tkhd)
+		mdia := mp4.NewMdiaBox()
+		trak.AddChild(mdia)
+		mdhd := &mp4.MdhdBox{Timescale: tss[i], Duration: vSttsTotal(stbl.Stts)}
+		mdhd.SetLanguage("und")
+		mdia.AddChild(mdhd)
+		media := "audio"
+		if i == 0 {
+			media = "video"
+		}
+		hdlr, err := mp4.CreateHdlr(media)
+		if err != nil {
+			return "build=err"
+		}
+		mdia.AddChild(hdlr)
+		minf := mp4.NewMinfBox()
+		mdia.AddChild(minf)
+		if i == 0 {
+			minf.AddChild(mp4.CreateVmhd())
+		} else {
+			minf.AddChild(mp4.CreateSmhd())
+		}
+		dinf := &mp4.DinfBox{}
+		dinf.AddChild(mp4.CreateDref())
+		minf.AddChild(dinf)
+		stbl.Children = append([]mp4.Box{mp4.NewStsdBox()}, stbl.Children...)
+		stbl.Stsd = stbl.Children[0].(*mp4.StsdBox)
+		minf.AddChild(stbl)
+		moov.AddChild(trak)
+	}
+	var between mp4.Box
+	pad := make([]byte, n(4))
+	switch n(3) {
+	case 1:
+		between = mp4.NewFreeBox(pad)
+	case 2:
+		between = mp4.NewSkipBox(pad)
+	case 3:
+		between = mp4.CreateUnknownBox("abcd", uint64(8+len(pad)), pad)
+	}
+	mdatFirst, inHdr, payLen := n(1) == 1, n(2), n(6)
+	base := ftyp.Size() + inHdr
+	if !mdatFirst {
+		base += moov.Size()
+		if between != nil {
+			base += between.Size()
+		}
+	}
+	for _, s := range stbls {
+		if s.Stco != nil {
+			for c := range s.Stco.ChunkOffset {
+				s.Stco.ChunkOffset[c] += uint32(base)
+			}
+		} else if s.Co64 != nil {
+			for c := range s.Co64.ChunkOffset {
+				s.Co64.ChunkOffset[c] += base
+			}
+		}
+	}
+	var head, tail bytes.Buffer
+	enc := func(w *bytes.Buffer, b mp4.Box) bool { return b == nil || b.Encode(w) == nil }
+	okEnc := enc(&head, ftyp)
+	if !mdatFirst {
+		okEnc = okEnc && enc(&head, moov) && enc(&head, between)
+	}
+	if inHdr == 16 {
+		var h [16]byte
+		binary.BigEndian.PutUint32(h[:], 1)
+		copy(h[4:], "mdat")
+		binary.BigEndian.PutUint64(h[8:], 16+payLen)
+		head.Write(h[:])
+	} else {
+		var h [8]byte
+		binary.BigEndian.PutUint32(h[:], uint32(8+payLen))
+		copy(h[4:], "mdat")
+		head.Write(h[:])
+	}
+	if mdatFirst {
+		okEnc = okEnc && enc(&tail, between) && enc(&tail, moov)
+	}
+	if !okEnc {
+		return "build=err"
+	}
+	in := &vVirtFile{head: head.Bytes(), tail: tail.Bytes(), payLen: int64(payLen), zero: n(7) == 1}
+	res := "panic"
+	vTry(func() {
+		parsed, err := mp4.DecodeFile(in, mp4.WithDecodeMode(mp4.DecModeLazyMdat))
+		if err != nil {
+			res = "decode=err"
+			return
+		}
+		w := &vHeadWriter{limit: 1 << 23}
+		stdout := os.Stdout // cropMP4 prints progress lines
+		devnull, _ := os.OpenFile(os.DevNull, os.O_WRONLY, 0)
+		os.Stdout = devnull
+		err = cropMP4(parsed, int(n(0)), w, in)
+		os.Stdout = stdout
+		devnull.Close()
+		if err != nil {
+			res = "err"
+			return
+		}
+		// locate the new mdat in what was written
+		pos, mdatStart, mdatSize := 0, -1, uint64(0)
+		for pos+8 <= len(w.head) {
+			sz := uint64(binary.BigEndian.Uint32(w.head[pos:]))
+			if string(w.head[pos+4:pos+8]) == "mdat" {
+				mdatStart, mdatSize = pos, sz
+				break
+			}
+			if sz < 8 {
+				break
+			}
+			pos += int(sz)
+		}
+		if mdatStart < 0 {
+			res = "nomdat"
+			return
+		}
+		out, err := mp4.DecodeFile(bytes.NewReader(w.head[:mdatStart]))
+		if err != nil || out.Moov == nil || len(out.Moov.Traks) != len(stbls) {
+			res = "outdecode=err"
+			return
+		}
+		var ks, offs, tks []string
+		for _, trak := range out.Moov.Traks {
+			ks = append(ks, strconv.FormatUint(uint64(trak.Mdia.Minf.Stbl.Stsz.SampleNumber), 10))
+			offs = append(offs, vOffsets(trak.Mdia.Minf.Stbl))
+			tks = append(tks, strconv.FormatUint(trak.Tkhd.Duration, 10))
+		}
+		res = fmt.Sprintf("ok/%d/%d/%d/%s/%s/%d/%s", mdatStart, mdatSize, w.n, strings.Join(ks, ","),
+			strings.Join(offs, "|"), out.Moov.Mvhd.Duration, strings.Join(tks, ","))
+	})
+	return "virt=" + res
 }
